@@ -471,8 +471,11 @@ impl util::BitVec
                 let mut digit = 0;
                 for bit_index in 0..bits_per_digit
                 {
-                    let i = span.offset.unwrap() + digit_index * bits_per_digit + bit_index;
-                    let bit = self.read_bit(i);
+                    // Pad the last digit with zeros instead of
+                    // borrowing bits from the item that follows
+                    let bit_within_span = digit_index * bits_per_digit + bit_index;
+                    let i = span.offset.unwrap() + bit_within_span;
+                    let bit = bit_within_span < span.size && self.read_bit(i);
 
                     digit <<= 1;
                     digit |= if bit { 1 } else { 0 };
@@ -619,8 +622,11 @@ impl util::BitVec
                 let mut digit = 0;
                 for bit_index in 0..bits_per_digit
                 {
-                    let i = span.offset.unwrap() + digit_index * bits_per_digit + bit_index;
-                    let bit = self.read_bit(i);
+                    // Pad the last digit with zeros instead of
+                    // borrowing bits from the item that follows
+                    let bit_within_span = digit_index * bits_per_digit + bit_index;
+                    let i = span.offset.unwrap() + bit_within_span;
+                    let bit = bit_within_span < span.size && self.read_bit(i);
 
                     digit <<= 1;
                     digit |= if bit { 1 } else { 0 };
